@@ -28,7 +28,7 @@ TIERS = {
     "quick": {"worlds": 260, "wall": 170, "cap": 20, "limit": 120.0, "max_points": 44},
     "thorough": {"worlds": 2000, "wall": 1700, "cap": 60, "limit": 300.0, "max_points": 160},
 }
-GATES = ("fired.eval.obj", "fired.eval.grad", "fired.eval.cons", "fired.eval.jac", "fired.eval.hess", "fired.lin.factor", "fired.lin.solve", "trials.discarded", "fired.region", "fired.x0", "fired.lin.obs_solve", "worlds.display_rows")
+GATES = ("fired.lin.inner_splu", "fired.lin.inner_gmres", "fired.eval.obj", "fired.eval.grad", "fired.eval.cons", "fired.eval.jac", "fired.eval.hess", "fired.lin.factor", "fired.lin.solve", "trials.discarded", "fired.region", "fired.x0", "fired.lin.obs_solve", "worlds.display_rows")
 COMPS = ("obj", "grad", "cons", "jac", "hess")
 
 
@@ -75,6 +75,11 @@ def _fault_sets(world, R, rng):
             allp.append({"dev": "lin", "op": "factor", "at": k})
         for k in range(1, ns + 1):
             allp.append({"dev": "lin", "op": "solve", "at": k})
+        for op_, cnt_ in sorted(R.lin_inner_counts.items()):
+            # the same failures one layer further down: the scipy routine itself gives up (info > 0 with a useless
+            # vector, RuntimeError from the factorisation); the library's wrapper has to turn that into a failure
+            for k in range(1, cnt_ + 1):
+                allp.append({"dev": "lin", "op": "inner_" + op_, "at": k})
         nobs = R.lin_counts[2]
         for k in range(1, min(nobs, 40) + 1):
             # the condition estimator's own solves (report_rcond): their failure is absorbed
@@ -101,6 +106,11 @@ def _fault_sets(world, R, rng):
                         continue
                     fs.append({"dev": "eval", "comp": c, "at": int(rng.integers(1, N[c] + 1)), "kind": str(rng.choice(["nan", "inf"])), "pos": int(rng.integers(0, 8))})
                 else:
+                    inner = [(o_, c_) for o_, c_ in sorted(R.lin_inner_counts.items()) if c_ > 0]
+                    if inner and rng.random() < 0.4:
+                        o_, c_ = inner[int(rng.integers(0, len(inner)))]
+                        fs.append({"dev": "lin", "op": "inner_" + o_, "at": int(rng.integers(1, c_ + 1))})
+                        continue
                     op = str(rng.choice(["factor", "solve"]))
                     cnt = nf if op == "factor" else ns
                     if cnt == 0:
@@ -141,6 +151,23 @@ def _fault_sets(world, R, rng):
     return sets, False
 
 
+def _natural_reports(E, sub, ctx, bump):
+    """Failures the underlying scipy routine reported by itself (non-converged GMRES/MINRES, singular LU) on the
+    algorithm path: the attempt they occurred in must be discarded like any injected failure."""
+    out = []
+    for t, tr in enumerate(E.trials):
+        if tr.inner_after is None or tr.exc is not None:
+            continue
+        reps = [r for r in E.lin_inner_reports[tr.inner_before : tr.inner_after] if not r[2]]
+        if not reps:
+            continue
+        bump("trials.with_natural_solver_failure")
+        if tr.accepted or not same_point(tr.out, tr.inp):
+            out.append(V(ID, "not-discarded", "in trial %d the linear solver (%s) reported failure by itself, yet the attempt was %s" % (t, reps[0][0], "accepted" if tr.accepted else "kept as a rejected trial point"), sub, dict(ctx, t=t)))
+            break
+    return out
+
+
 def _oracle(world, R, F, fset, sub, stats):
     out = []
     ctx = {"knobs": knob_key(world), "faults": [(f.get("dev"), f.get("comp", f.get("op"))) for f in fset]}
@@ -166,6 +193,7 @@ def _oracle(world, R, F, fset, sub, stats):
             bump("fired.on_check_eval")
     for (op, k, site) in fired_lin:
         bump("fired.lin." + op)
+    out += _natural_reports(F, sub, ctx, bump)
 
     T = F.trials
     first_nf = T[0].nfired_before if T else len(fired_eval)
@@ -306,6 +334,11 @@ def case(world):
     sets, full = _fault_sets(world, R, rng)
     rdig = R.traj_digest()[:12]
     viol, keys = [], []
+
+    def _bump(k, n=1):
+        stats[k] = stats.get(k, 0) + n
+
+    viol += _natural_reports(R, {"faults": []}, {"knobs": knob_key(world), "faults": []}, _bump)
     for fset in sets:
         sub = {"faults": fset}
         if only is not None and only != sub:
